@@ -1,4 +1,5 @@
 import Mutagen.Proofs.Reconcile
+import Mutagen.Proofs.Conflict
 /-!
 # C06 — every path receives at most one action and conflicts are well formed
 
@@ -39,27 +40,59 @@ theorem conflict_wellformed_partial (mode : Mode) (A alpha beta : Option Entry) 
   obtain ⟨_, _, h2, h3, h4⟩ := reconcile_conflicts mode [] A alpha beta c hc
   exact ⟨h2, h3, h4⟩
 
-/-- In the one-way modes the alpha side of every conflict is the single
-synthetic change at the conflict's root. -/
+/-- Every reported conflict names at least one change on *each* endpoint, all
+of them at or below its root — for valid endpoint trees without phantom
+directories, in every mode. (Without the no-phantom hypothesis a
+phantom-vs-untracked pair yields a conflict with an empty alpha side.) -/
+theorem conflict_wellformed_partial2 (mode : Mode) (A alpha beta : Option Entry)
+    (hα : Valid alpha) (hβ : Valid beta) (hpα : onoPhantom alpha = true) (hpβ : onoPhantom beta = true) :
+    ∀ c ∈ (Reconcile A alpha beta mode).conflicts,
+      c.alphaChanges ≠ [] ∧ c.betaChanges ≠ [] ∧
+      (∀ ch ∈ c.alphaChanges, c.root <+: ch.path) ∧
+      (∀ ch ∈ c.betaChanges, c.root <+: ch.path) := by
+  intro c hc
+  obtain ⟨h2, h3, h4⟩ := conflict_wellformed_partial mode A alpha beta c hc
+  exact ⟨reconcile_conflict_alpha mode [] A alpha beta hα hβ hpα hpβ c hc, h2, h3, h4⟩
+
+/-- **Conflicts are well formed** (full statement): for a valid synchronizable
+ancestor and valid endpoint trees without phantom directories, in every mode,
+every reported conflict passes `Conflict.EnsureValid`, names at least one
+change on each endpoint, names only changes at or below its root, and is rooted
+at a path where the disagreement occurs — the endpoints differ (shallowly)
+there and agree at every proper prefix of it. -/
+theorem conflict_wellformed (mode : Mode) (A alpha beta : Option Entry)
+    (hA : ValidSync A) (hα : Valid alpha) (hβ : Valid beta)
+    (hpα : onoPhantom alpha = true) (hpβ : onoPhantom beta = true) :
+    ∀ c ∈ (Reconcile A alpha beta mode).conflicts,
+      c.ensureValid = true ∧
+      c.alphaChanges ≠ [] ∧ c.betaChanges ≠ [] ∧
+      (∀ ch ∈ c.alphaChanges, c.root <+: ch.path) ∧
+      (∀ ch ∈ c.betaChanges, c.root <+: ch.path) ∧
+      FirstDisagreement alpha beta c.root := by
+  intro c hc
+  obtain ⟨h1, h2, h3, h4⟩ := conflict_wellformed_partial2 mode A alpha beta hα hβ hpα hpβ c hc
+  have hv := reconcile_conflicts_valid mode [] A alpha beta (Valid.of_validSync hA) hα hβ c hc
+  obtain ⟨rel, hr, hd⟩ := reconcile_conflict_rooted mode [] A alpha beta c hc
+  simp only [List.nil_append] at hr
+  exact ⟨Conflict.ensureValid_of h1 h2 hv, h1, h2, h3, h4, hr ▸ hd⟩
+
+/-- Rootedness needs no hypotheses at all. -/
+theorem conflict_rooted_at_disagreement (mode : Mode) (A alpha beta : Option Entry) :
+    ∀ c ∈ (Reconcile A alpha beta mode).conflicts, FirstDisagreement alpha beta c.root := by
+  intro c hc
+  obtain ⟨rel, hr, hd⟩ := reconcile_conflict_rooted mode [] A alpha beta c hc
+  simp only [List.nil_append] at hr
+  exact hr ▸ hd
+
+/-- In the one-way modes the alpha side is the single synthetic change at the
+conflict's root, whatever the trees. -/
 theorem conflict_alpha_nonempty_oneWay (path : Path) (a alpha beta : Option Entry) :
     (∀ c ∈ (handleOneWaySafe path a alpha beta).conflicts, c.alphaChanges ≠ []) ∧
-    (∀ c ∈ (handleOneWayReplica path a alpha beta).conflicts, c.alphaChanges ≠ []) := by
-  constructor
-  · unfold handleOneWaySafe
-    simp only []
-    repeat' split
-    all_goals (intro c hc; simp [Plan.conflict, Plan.betaChange, Plan.ancChange] at hc; try (subst hc; simp))
-  · unfold handleOneWayReplica
-    simp only []
-    repeat' split
-    all_goals (intro c hc; simp [Plan.conflict, Plan.betaChange] at hc; try (subst hc; simp))
+    (∀ c ∈ (handleOneWayReplica path a alpha beta).conflicts, c.alphaChanges ≠ []) :=
+  handleOneWay_conflict_alpha path a alpha beta
 
--- TODO theorem conflict_wellformed (full strength, DESIGN §8 C06): additionally, for valid trees without
---   phantom directories, `c.alphaChanges ≠ []` in the two-way modes (the only branch where it is not
---   syntactic is reconcile.go:214-220: needs `diff = [] → SameTree` on both sides plus a case analysis of the
---   root kinds; false with phantoms: phantom-vs-untracked gives an empty alpha list), `Conflict.ensureValid c`
---   (every named change carries sub-trees of valid trees), and "rooted where the endpoints disagree"
---   (`¬ shallowEq (alpha@root) (beta@root)` with shallowly equal proper prefixes). All three are checked on
---   the implementation by the C06 oracle `malformed-conflict`.
+/-! Non-vacuity: valid, phantom-free trees with unsynchronizable content exist. -/
+example : Valid (some exampleTree1) ∧ onoPhantom (some exampleTree1) = true := by
+  unfold Valid; decide
 
 end Mutagen.Properties.C06
